@@ -335,3 +335,41 @@ def direntry_path(I, a, n):
     """ignore::DirEntry is modelled as an opaque value carrying its path"""
     v = unbox(a[0])
     return v.data
+
+
+@model(r"^<(&)?std::fs::File as std::io::Read>::(read_exact|read_to_end|read_to_string|read)$")
+def file_read(I, a, n):
+    f = deref(a[0])
+    node = f.fs.nodes.get(f.path)
+    op = meth(n)
+    data = node.data if node is not None else []
+    buf = deref(a[1])
+    if op == "read_exact":
+        want = len(buf.items) if isinstance(buf, RVec) else len(buf)
+        if len(data) - f.pos < want:
+            return ERR(io_err("failed to fill whole buffer"))
+        chunk = list(data[f.pos:f.pos + want])
+        f.pos += want
+        if isinstance(buf, RVec):
+            buf.items[:] = chunk
+        else:
+            buf.items[buf.lo:buf.hi] = chunk
+        f.fs.log.append(("read", f.path))
+        return OK(UNIT)
+    chunk = list(data[f.pos:])
+    if op == "read":
+        room = len(buf.items) if isinstance(buf, RVec) else len(buf)
+        chunk = chunk[:room]
+        if isinstance(buf, RVec):
+            buf.items[:len(chunk)] = chunk
+        else:
+            buf.items[buf.lo:buf.lo + len(chunk)] = chunk
+        f.pos += len(chunk)
+        return OK(len(chunk))
+    f.pos = len(data)
+    if op == "read_to_string":
+        buf.chars.extend(chunk)
+    else:
+        buf.items.extend(chunk)
+    f.fs.log.append(("read", f.path))
+    return OK(len(chunk))
